@@ -286,6 +286,9 @@ func rigSchedules(variant string) []rigSchedule {
 			for rep := 0; rep < 4; rep++ {
 				evs := []rigEvent{{0, 1, "R", 64}, {1, 2, "R", 64}, {400, 2, "W", 192}, {800, 1, "R", 196}, {802 + d, 0, k, 68}, {1600 + rep, 1, "R", 64}}
 				out = append(out, rigSchedule{Variant: variant, Cores: 3, Events: evs})
+				// the same with the writer being a third sharer (upgrade Shared -> Modified)
+				evs2 := []rigEvent{{0, 1, "R", 64}, {1, 2, "R", 64}, {2, 0, "R", 64}, {400, 2, "W", 192}, {800, 1, "R", 196}, {802 + d, 0, k, 68}, {1600 + rep, 1, "R", 64}}
+				out = append(out, rigSchedule{Variant: variant, Cores: 3, Events: evs2})
 			}
 		}
 	}
